@@ -512,11 +512,28 @@ func (f *Frame) applyContract(ct *FuncContract, fn *ssa.Function, args []Val, c 
 	env.state = f.cur
 	// results
 	var res []Val
+	memoKey := ""
+	var memo []Val
+	if ct.Pure && sig.Results().Len() > 0 {
+		memoKey = f.pureKey(callee, args)
+		memo = f.pureLookup(memoKey, sig.Results().Len())
+		if memo != nil {
+			vc.trust("pure call " + callee + " repeated with the same arguments in an unchanged state returns the same result (for interface methods: nothing it reads is changed by another goroutine between the two calls)")
+		}
+	}
 	for i := 0; i < sig.Results().Len(); i++ {
 		rt := sig.Results().At(i).Type()
-		r := f.freshVal(fmt.Sprintf("%s_r%d", sanitize(ct.Key), i), rt)
+		var r Val
+		if memo != nil {
+			r = memo[i]
+		} else {
+			r = f.freshVal(fmt.Sprintf("%s_r%d", sanitize(ct.Key), i), rt)
+		}
 		res = append(res, r)
 		env.results = append(env.results, Bound{V: r, T: rt})
+	}
+	if memoKey != "" && memo == nil {
+		f.pureStore(memoKey, res)
 	}
 	for _, en := range ct.Ensures {
 		if mentionsActivationLocal(en.Expr) {
